@@ -9,7 +9,26 @@
 #include <condition_variable>
 #include <atomic>
 
+// secret strings handed from the thread that created them to ANOTHER thread (never used by two threads at once): the process-wide key is one
+// key for all threads, so the receiver reveals exactly what the creator stored
+struct Parcel { secret_string* s; Bytes plain; std::thread::id maker; };
+static std::mutex g_mail_mu; static std::vector<Parcel> g_mail;
+static bool parcel_ok(Parcel& pc) {
+    bool ok = true;
+    try { ok = pc.s->reveal_copy() == str_of(pc.plain); pc.s->rotate_nonce(); ok = ok && pc.s->reveal_copy() == str_of(pc.plain); }
+    catch (...) { ok = false; }
+    delete pc.s; pc.s = 0; return ok;
+}
 static std::string run_conc(const std::vector<std::string>& a) {
+    if (a[0] == "sshandoff") {   // sshandoff <plaintext>: deposit an own object, take over one made by another thread
+        Parcel mine; mine.plain = bx(a[1]); mine.s = new secret_string(mine.plain.data(), mine.plain.size()); mine.maker = std::this_thread::get_id();
+        Parcel got; got.s = 0;
+        { std::lock_guard<std::mutex> lk(g_mail_mu);
+          for (size_t i = 0; i < g_mail.size(); ++i) if (g_mail[i].maker != mine.maker) { got = g_mail[i]; g_mail.erase(g_mail.begin() + i); break; }
+          g_mail.push_back(mine); }
+        if (got.s && !parcel_ok(got)) return "HANDOFF-MISMATCH a secret string made by another thread does not reveal its bytes here";
+        return "handoff-ok";
+    }
     if (a[0] == "ssconc") {      // ssconc <plaintext>: set / reveal / rotate / reveal / move / reveal on this thread's own objects
         Bytes p = bx(a[1]); std::string out;
         secret_string s(p.data(), p.size());
@@ -45,6 +64,9 @@ int main(int argc, char** argv) {
         }
     }));
     for (size_t t = 0; t < th.size(); ++t) th[t].join();
+    // what is left in the mailbox was made by worker threads: the main thread takes it over
+    { bool all_ok = true; for (size_t i = 0; i < g_mail.size(); ++i) if (!parcel_ok(g_mail[i])) all_ok = false;
+      if (!all_ok) for (size_t i = results.size(); i-- > 0;) if (lines[i].compare(0, 9, "sshandoff") == 0) { results[i] = "HANDOFF-MISMATCH a secret string made by a worker thread does not reveal its bytes on the main thread"; break; } }
     for (size_t i = 0; i < results.size(); ++i) { fputs(results[i].c_str(), stdout); fputc('\n', stdout); }
     return 0;
 }
